@@ -541,6 +541,12 @@ def oracle(obs, cfg, eps=F(0)):
             rel = [b for a, b in blind if a <= t < b][0]
             if sock > 0 and rel >= t + sock:
                 cw_upper = t + sock + eps
+    # every reply write is under socket_timeout; a value <= 0 gives the first one -- the greeting, entered at the
+    # session's start -- zero seconds (None, and only None, disables the timeout)
+    if sock is not None and sock <= 0:
+        bounds.append(obs["t0"])
+        if E is None or E > obs["t0"] + eps:
+            bad.append(("c16-ctrl-write-zero-not-abandoned", f"socket_timeout={sock}: the greeting write is allowed zero seconds, session not closed by {obs['t0'] + eps} (closed at {E})"))
     if cw_upper is not None and (E is None or E > cw_upper):
         bad.append(("c16-ctrl-write-not-abandoned", f"socket_timeout={sock}: reply write blocked by a peer that does not read, session not closed by {cw_upper} (closed at {E})"))
     # ---- no release earlier than the earliest applicable bound; none at all without a bound
@@ -670,8 +676,28 @@ def run_matrix(ctx, cases, throttle=None, eps_of=None, stream="matrix"):
     return xs
 
 
+def former_witnesses():
+    """witnesses of repaired findings: ordinary corpus cases now, which must satisfy the oracle and agree with the model.
+    F16 (`read_timeout or timeout` turned 0 into None): its recorded replay docs/notes/C16-F15-replay.json
+    (idle_timeout=0, one command, then silence) and the same root cause on the write side (socket_timeout=0 with a
+    peer that does not read its control channel)."""
+    import json
+
+    f = pathlib.Path(__file__).resolve().parents[2] / "docs" / "notes" / "C16-F15-replay.json"
+    r = json.loads(f.read_text())["replay"]
+    val = lambda x: None if x is None else (int(F(x)) if F(x).denominator == 1 else F(x))
+    cases = [("F16-replay", r["k"], tuple(val(x) for x in r["cfg"]), deser_script(r["steps"]))]
+    for k in range(0, len(SCRIPTS["ctrl_not_reading"]) + 1):
+        cases.append(("ctrl_not_reading", k, (None, 0, 1), SCRIPTS["ctrl_not_reading"]))
+    for name in ("login_pwd", "retr_noconn", "stor"):
+        for k in range(0, len(SCRIPTS[name]) + 1):
+            cases.append((name, k, (0, None, 1), SCRIPTS[name]))
+            cases.append((name, k, (0.0, 30, 1), SCRIPTS[name]))
+    return cases
+
+
 def effective_timeouts_stream(ctx):
-    """StreamIO.__init__'s `X or timeout` on the real class vs the model's eval of the wiring"""
+    """StreamIO.__init__'s `timeout if X is None else X` on the real class vs the model's eval of the wiring"""
     vals = [None, 0, 2, 5, 30, F(1, 2), 0.0]
     cases = [(i, s) for i in vals for s in vals]
     out = ctx.model([(2, [[oq(F(i) if i is not None else None), oq(F(s) if s is not None else None), None]]) for i, s in cases])
@@ -751,7 +777,8 @@ def correspondence(ctx, thorough=None):
         "cases = script (19 scripted sessions: login, PWD, PASV/EPSV + RETR/STOR/LIST/MLSD with the data channel connected "
         "early / late / never / held) x prefix length k (the peer stalls after k steps: every event index) x (idle, socket, "
         "wait_future) in {None,0,2,5,30}^3 (all 125 for 5 scripts, a covering sample for the others in the quick tier; all in "
-        "thorough) + one read-throttled configuration + StreamIO `or` pairs + wait_for cases. A case is non-trivial when its "
+        "thorough) + the witnesses of the repaired finding F16 (idle_timeout=0 / socket_timeout=0) as ordinary cases + one "
+        "read-throttled configuration + StreamIO effective-timeout pairs + wait_for cases. A case is non-trivial when its "
         "(script, k, configuration) triple is new; every case runs the real server once on the virtual clock."
     )
     xs = []
@@ -773,10 +800,13 @@ def correspondence(ctx, thorough=None):
         ctx.count("random_scripts", 160)
     ctx.count("matrix_cases", len(cases))
     xs += run_matrix(ctx, cases)
+    fw = former_witnesses()
+    ctx.count("former_witness_cases", len(fw))
+    run_matrix(ctx, fw, stream="former-witness")
     # one throttled configuration: the read-throttle wait delays the arming of the idle timer
     tcases = []
     for name in ("login", "login_pwd", "login_slow", "retr_noconn", "retr_hold", "stor"):
-        for cfg in [(2, None, 2), (5, 5, 2), (30, 2, 5), (None, 2, 2), (5, None, None)]:
+        for cfg in [(2, None, 2), (5, 5, 2), (30, 2, 5), (None, 2, 2), (5, None, None), (0, 5, 2), (5, 0, 2)]:
             for k in range(1, len(SCRIPTS[name]) + 1):
                 tcases.append((name, k, cfg))
     ctx.count("throttled_cases", len(tcases))
@@ -807,13 +837,6 @@ def search(ctx):
         correspondence(ctx, thorough=True)
     except Exception as e:
         ctx.notes.append(f"search aborted: {e!r}")
-
-
-def known(ctx):
-    """F15: idle_timeout = 0 never drops a silent session"""
-    obs = run_case(SCRIPTS["login"], 1, (0, None, 1))
-    if obs["eof"] is None:
-        ctx.known_reproduced("F16-zero-idle-timeout-is-no-timeout", "idle_timeout=0: silent session still connected after 100 virtual seconds")
 
 
 def replay(ctx, data):
